@@ -61,7 +61,7 @@ def run(ctx, ck) -> None:
             continue
         nover += 1
         if table.decorated_with(cls, 'square'):
-            ok, why = derive_square(ctx, pol, kinds, cls)
+            ok, why = derive_square(ctx, pol, kinds, cls, dtypes=True)
             if ok is True:
                 ck.ok('O1', cls.node, f'out_structure = in_structure justified: {why}', instance=f'{cls.name} square')
             elif ok is False:
@@ -196,8 +196,23 @@ def run(ctx, ck) -> None:
     c01._r_del(sub, world, table, rules, infos)
     c01._r_blk(sub, world, table, rules, infos)
     c01._r_ptp(sub, world, table)
+    def structural(o) -> bool:
+        """Obligations of C01 that are necessary for the *structures* of the reduced operator (value-level ones stay in C01)."""
+        if o.rule.endswith(('R-RED', 'R-IDENT', 'R-DRV')):
+            return True
+        if o.rule.endswith('R-NARY'):
+            return 'scalar product' not in o.construct
+        if o.rule.endswith('R-DEL'):
+            # deleting a pair of shape-changing operators: the structures survive for all shapes only if the pair is the identity
+            return 'MoveAxisInverseRule' in o.construct or 'ReshapeInverseRule' in o.construct
+        if o.rule.endswith('R-BLK'):
+            return 'product order' not in o.construct
+        if o.rule.endswith('R-PTP'):
+            return 'diagonal placement' in o.construct
+        return False
+
     for o in sub.obs:
-        if o.rule.endswith(('R-NARY', 'R-RED', 'R-IDENT', 'R-DRV', 'R-DEL', 'R-BLK', 'R-PTP')):
+        if structural(o):
             o.rule = f'{ck.pid}.O6'
             ck.obs.append(o)
     ck.floor('O6', sum(1 for o in ck.obs if o.rule.endswith('O6')), 15, 'structure obligations on reduced operators')
